@@ -1,56 +1,62 @@
 /-
   Proofs/C03Gone.lean — "once the process is gone every later query raises NoSuchProcess".
-  `PGone c p`: process `p` is gone at every access index and nothing is refused.
+  `PGone c p k0`: process `p` is gone at every access index from `k0` on and nothing is refused from there on.
+  Every lemma is stated for a call that STARTS at an access counter `s.k ≥ k0` (the model only consults the
+  plan at indices ≥ the current counter, and the counter never decreases: each lemma also returns `s.k ≤ s'.k`),
+  so the process may have vanished at any earlier point — also in the middle of an earlier call.
 -/
 import PsutilModel.Proofs.C03Front
 namespace Psutil.C03
 open Spec
 
-def PGone (c : Ctx) (p : Nat) : Prop := (∀ k, pst c k p = .gone) ∧ (∀ k, c.deny k = none)
+def PGone (c : Ctx) (p k0 : Nat) : Prop := (∀ k, k0 ≤ k → pst c k p = .gone) ∧ (∀ k, k0 ≤ k → c.deny k = none)
 
-theorem pgone_of_goneFromStart {c : Ctx} (h : GoneFromStart c) : PGone c c.w.target := by
-  refine ⟨fun k => ?_, h.2⟩
+theorem pgone_mono {c : Ctx} {p k0 k1 : Nat} (h : PGone c p k0) (hk : k0 ≤ k1) : PGone c p k1 :=
+  ⟨fun k hk' => h.1 k (Nat.le_trans hk hk'), fun k hk' => h.2 k (Nat.le_trans hk hk')⟩
+
+theorem pgone_of_goneFromStart {c : Ctx} (h : GoneFromStart c) : PGone c c.w.target 0 := by
+  refine ⟨fun k _ => ?_, fun k _ => h.2 k⟩
   unfold pst pstOf World.state
   rw [h.1 k]
   cases c.w.info c.w.target <;> simp
 
 /-- fails at its first access with a bare ENOENT/ESRCH, cache untouched -/
 def GoneFails {α : Type} (p : Nat) (m : M α) : Prop :=
-  ∀ c s, Adm c → PGone c p → s.cache.active = false →
-    ∃ e s', m c s = (.error e, s') ∧ (e = .fnf ∨ e = .ple) ∧ s'.cache = s.cache
+  ∀ c s k0, Adm c → PGone c p k0 → k0 ≤ s.k → s.cache.active = false →
+    ∃ e s', m c s = (.error e, s') ∧ (e = .fnf ∨ e = .ple) ∧ s'.cache = s.cache ∧ s.k ≤ s'.k
 
 /-- raises NoSuchProcess(p), cache untouched -/
 def GoneNSP {α : Type} (p : Nat) (m : M α) : Prop :=
-  ∀ c s, Adm c → PGone c p → s.cache.active = false →
-    ∃ s', m c s = (.error (.nsp p), s') ∧ s'.cache = s.cache
+  ∀ c s k0, Adm c → PGone c p k0 → k0 ≤ s.k → s.cache.active = false →
+    ∃ s', m c s = (.error (.nsp p), s') ∧ s'.cache = s.cache ∧ s.k ≤ s'.k
 
 theorem access_fails {α : Type} {p : Nat} (a : OsAcc) (tbl : World → WS → Except Errno α)
     (h : ∀ w st, pstOf w st p = .gone → ∃ en, tbl w st = .error en ∧ (en = .ENOENT ∨ en = .ESRCH)) :
     GoneFails p (access a tbl) := by
-  intro c s ha hg _
-  obtain ⟨res, s', hr, _, hc, hspec⟩ := access_spec a tbl c s ha
-  obtain ⟨en, hen, hcase⟩ := h c.w (c.ws s.k) (hg.1 s.k)
+  intro c s k0 ha hg hk _
+  obtain ⟨res, s', hr, hk', hc, hspec⟩ := access_spec a tbl c s ha
+  obtain ⟨en, hen, hcase⟩ := h c.w (c.ws s.k) (hg.1 s.k hk)
   rw [hr]
   cases res with
   | ok v => rw [hen] at hspec; cases hspec.1
   | error e =>
-    refine ⟨e, s', rfl, ?_, hc⟩
+    refine ⟨e, s', rfl, ?_, hc, by omega⟩
     rcases hspec with ⟨_, _, hd⟩ | ⟨en', ht, he, _⟩
-    · exact absurd (hg.2 s.k) hd
+    · exact absurd (hg.2 s.k hk) hd
     · rw [hen] at ht
       injection ht with ht
       subst ht; subst he
       rcases hcase with h | h <;> subst h <;> simp [Errno.toExc]
 
 theorem bind_fails {α β : Type} {p : Nat} {m : M α} (f : α → M β) (h : GoneFails p m) : GoneFails p (m >>= f) := by
-  intro c s ha hg hc
-  obtain ⟨e, s', hr, he, hc'⟩ := h c s ha hg hc
-  exact ⟨e, s', by simp only [bind_eq, M.bind, hr], he, hc'⟩
+  intro c s k0 ha hg hk hc
+  obtain ⟨e, s', hr, he, hc', hk'⟩ := h c s k0 ha hg hk hc
+  exact ⟨e, s', by simp only [bind_eq, M.bind, hr], he, hc', hk'⟩
 
 theorem bind_nsp {α β : Type} {p : Nat} {m : M α} (f : α → M β) (h : GoneNSP p m) : GoneNSP p (m >>= f) := by
-  intro c s ha hg hc
-  obtain ⟨s', hr, hc'⟩ := h c s ha hg hc
-  exact ⟨s', by simp only [bind_eq, M.bind, hr], hc'⟩
+  intro c s k0 ha hg hk hc
+  obtain ⟨s', hr, hc', hk'⟩ := h c s k0 ha hg hk hc
+  exact ⟨s', by simp only [bind_eq, M.bind, hr], hc', hk'⟩
 
 theorem tblListdir_gone {w : World} {st : WS} {p : Nat} {d : PDir} (hg : pstOf w st p = .gone) :
     tblListdir w st (.dir p d) = .error .ENOENT := by
@@ -91,14 +97,15 @@ theorem native_fails (p : Nat) (n : Native) : GoneFails p (accNative n p) :=
   access_fails _ _ (fun _ _ hg => ⟨_, tblNative_gone hg, Or.inr rfl⟩)
 
 /-- both probes of the handler say "gone" -/
-theorem isZombie_gone (r : Bool) (p : Nat) (c : Ctx) (s : St) (ha : Adm c) (hg : PGone c p) :
-    ∃ s', isZombie (goodCfg r) p c s = (.ok false, s') ∧ s'.cache = s.cache := by
+theorem isZombie_gone (r : Bool) (p : Nat) (c : Ctx) (s : St) (k0 : Nat) (ha : Adm c) (hg : PGone c p k0)
+    (hk : k0 ≤ s.k) :
+    ∃ s', isZombie (goodCfg r) p c s = (.ok false, s') ∧ s'.cache = s.cache ∧ s.k ≤ s'.k := by
   obtain ⟨r1, s1, h1, hk1, hc1, hr1⟩ :=
     access_spec (.fs .openF (.file p .stat)) (fun w st => tblOpen w st (.file p .stat)) c s ha
   unfold isZombie readFile accOpen accRead tryCatch
   simp only [bind_eq, pure_eq, M.bind, M.pure, h1]
   cases r1 with
-  | ok u => exact absurd (hg.1 s.k) (tblOpen_stat_ok hr1.1)
+  | ok u => exact absurd (hg.1 s.k hk) (tblOpen_stat_ok hr1.1)
   | error e =>
     simp only
     have hc : catches (goodCfg r).isZombieCatch e = true := by
@@ -106,50 +113,51 @@ theorem isZombie_gone (r : Bool) (p : Nat) (c : Ctx) (s : St) (ha : Adm c) (hg :
       · subst he; rfl
       · subst he; exact catches_os en
     simp only [hc, if_true]
-    exact ⟨s1, rfl, hc1⟩
+    exact ⟨s1, rfl, hc1, by omega⟩
 
-theorem raiseIfZombie_gone (r : Bool) (p : Nat) (c : Ctx) (s : St) (ha : Adm c) (hg : PGone c p) :
-    ∃ s', raiseIfZombie (goodCfg r) p c s = (.ok (), s') ∧ s'.cache = s.cache := by
-  obtain ⟨s', h, hc⟩ := isZombie_gone r p c s ha hg
+theorem raiseIfZombie_gone (r : Bool) (p : Nat) (c : Ctx) (s : St) (k0 : Nat) (ha : Adm c) (hg : PGone c p k0)
+    (hk : k0 ≤ s.k) :
+    ∃ s', raiseIfZombie (goodCfg r) p c s = (.ok (), s') ∧ s'.cache = s.cache ∧ s.k ≤ s'.k := by
+  obtain ⟨s', h, hc, hk'⟩ := isZombie_gone r p c s k0 ha hg hk
   unfold raiseIfZombie
   simp only [bind_eq, pure_eq, M.bind, h]
-  exact ⟨s', rfl, hc⟩
+  exact ⟨s', rfl, hc, hk'⟩
 
 /-- `wrap_exceptions` turns the bare ENOENT/ESRCH of a gone process into NoSuchProcess(p) -/
 theorem wrap_gone (r : Bool) (p : Nat) {α : Type} {body : M α} (hb : GoneFails p body) :
     GoneNSP p (wrapExceptions (goodCfg r) p body) := by
-  intro c s ha hg hcache
-  obtain ⟨e, s1, hr, he, hc1⟩ := hb c s ha hg hcache
+  intro c s k0 ha hg hk hcache
+  obtain ⟨e, s1, hr, he, hc1, hk1⟩ := hb c s k0 ha hg hk hcache
   unfold wrapExceptions tryCatch
   rw [hr]
   simp only
-  obtain ⟨s2, h2, hc2⟩ := raiseIfZombie_gone r p c s1 ha hg
+  obtain ⟨s2, h2, hc2, hk2⟩ := raiseIfZombie_gone r p c s1 k0 ha hg (by omega)
   rcases he with he | he <;> subst he
   · have hfind : (goodCfg r).wrapClauses.find? (fun cl => PyExc.fnf.bases.contains cl.1)
         = some ("FileNotFoundError",
             ["_raise_if_zombie", "if not exists(stat): raise NoSuchProcess", "raise"]) := by
       simp [goodCfg, PyExc.bases]
     simp only [hfind, wrapSteps_fnf, bind_eq, M.bind, h2]
-    obtain ⟨s3, h3, hc3, _⟩ := pathExists_gone p (.file p .stat) rfl c s2 ha (hg.1 _)
+    obtain ⟨s3, h3, hc3, hk3⟩ := pathExists_gone p (.file p .stat) rfl c s2 ha (hg.1 _ (by omega))
     simp only [h3, throw]
-    exact ⟨s3, rfl, by rw [hc3, hc2, hc1]⟩
+    exact ⟨s3, rfl, by rw [hc3, hc2, hc1], by omega⟩
   · have hfind : (goodCfg r).wrapClauses.find? (fun cl => PyExc.ple.bases.contains cl.1)
         = some ("ProcessLookupError", ["_raise_if_zombie", "raise NoSuchProcess"]) := by
       simp [goodCfg, PyExc.bases]
     simp only [hfind, wrapSteps_ple, bind_eq, M.bind, h2, throw]
-    exact ⟨s2, rfl, by rw [hc2, hc1]⟩
+    exact ⟨s2, rfl, by rw [hc2, hc1], by omega⟩
 
 /-- an outer `wrap_exceptions` lets NoSuchProcess(p) through -/
 theorem wrap_pass (r : Bool) (p : Nat) {α : Type} {body : M α} (hb : GoneNSP p body) :
     GoneNSP p (wrapExceptions (goodCfg r) p body) := by
-  intro c s ha hg hcache
-  obtain ⟨s1, hr, hc1⟩ := hb c s ha hg hcache
+  intro c s k0 ha hg hk hcache
+  obtain ⟨s1, hr, hc1, hk1⟩ := hb c s k0 ha hg hk hcache
   unfold wrapExceptions tryCatch
   rw [hr]
   have : (goodCfg r).wrapClauses.find? (fun cl => (PyExc.nsp p).bases.contains cl.1) = none := by
     simp [goodCfg, PyExc.bases]
   simp only [this]
-  exact ⟨s1, rfl, hc1⟩
+  exact ⟨s1, rfl, hc1, hk1⟩
 
 theorem W_gone (r : Bool) (name : String) (p : Nat) {α : Type} {body : M α}
     (hw : (goodCfg r).wrapped.contains name = true) (hb : GoneFails p body) :
@@ -167,30 +175,30 @@ theorem memoIf_fails {α : Type} {p q : Nat} (b : Bool) (get : Cache → Option 
   unfold memoIf
   cases b
   · exact hb
-  · intro c s ha hg hc
+  · intro c s k0 ha hg hk hc
     unfold memo
     simp only [bind_eq, M.bind, getCache, hc, Bool.false_and, Bool.false_eq_true, ↓reduceIte]
-    exact hb c s ha hg hc
+    exact hb c s k0 ha hg hk hc
 
 theorem memoIf_nsp {α : Type} {p q : Nat} (b : Bool) (get : Cache → Option α) (set : α → Cache → Cache)
     {body : M α} (hb : GoneNSP p body) : GoneNSP p (memoIf b get set q body) := by
   unfold memoIf
   cases b
   · exact hb
-  · intro c s ha hg hc
+  · intro c s k0 ha hg hk hc
     unfold memo
     simp only [bind_eq, M.bind, getCache, hc, Bool.false_and, Bool.false_eq_true, ↓reduceIte]
-    exact hb c s ha hg hc
+    exact hb c s k0 ha hg hk hc
 
 /-- a front-end handler that does not catch NoSuchProcess -/
 theorem tryCatch_nsp {α : Type} {p : Nat} {m : M α} {h : PyExc → Option (M α)}
     (hm : GoneNSP p m) (hh : h (.nsp p) = none) : GoneNSP p (tryCatch m h) := by
-  intro c s ha hg hc
-  obtain ⟨s1, hr, hc1⟩ := hm c s ha hg hc
+  intro c s k0 ha hg hk hc
+  obtain ⟨s1, hr, hc1, hk1⟩ := hm c s k0 ha hg hk hc
   unfold tryCatch
   rw [hr]
   simp only [hh]
-  exact ⟨s1, rfl, hc1⟩
+  exact ⟨s1, rfl, hc1, hk1⟩
 
 variable (r : Bool) (p : Nat)
 
@@ -260,15 +268,15 @@ theorem ioniceGet_gone : GoneNSP p (Plat.ioniceGet (goodCfg r) p) := by
 
 /-! ### links, smaps_rollup fallback, rlimit -/
 
-theorem pathLexists_gone (c : Ctx) (s : St) (ha : Adm c) (hg : PGone c p) :
-    ∃ s', pathLexists (.pidDir p) c s = (.ok false, s') ∧ s'.cache = s.cache := by
+theorem pathLexists_gone (c : Ctx) (s : St) (k0 : Nat) (ha : Adm c) (hg : PGone c p k0) (hk : k0 ≤ s.k) :
+    ∃ s', pathLexists (.pidDir p) c s = (.ok false, s') ∧ s'.cache = s.cache ∧ s.k ≤ s'.k := by
   obtain ⟨r1, s1, h1, hk1, hc1, hr1⟩ :=
     access_spec (.fs .lstat (.pidDir p)) (fun w st => tblStat w st (.pidDir p)) c s ha
   unfold pathLexists accLstat tryCatch
   simp only [bind_eq, pure_eq, M.bind, M.pure, h1]
   cases r1 with
   | ok u =>
-    have := tblStat_gone (w := c.w) (st := c.ws s.k) (path := .pidDir p) rfl (hg.1 s.k)
+    have := tblStat_gone (w := c.w) (st := c.ws s.k) (path := .pidDir p) rfl (hg.1 s.k hk)
     rw [this] at hr1; cases hr1.1
   | error e =>
     simp only
@@ -277,29 +285,29 @@ theorem pathLexists_gone (c : Ctx) (s : St) (ha : Adm c) (hg : PGone c p) :
       · subst he; rfl
       · subst he; exact catches_os2 en
     simp only [hcat, if_true]
-    exact ⟨s1, rfl, hc1⟩
+    exact ⟨s1, rfl, hc1, by omega⟩
 
 theorem readlinkM_fails (l : PLink) : GoneFails p (readlinkM (goodCfg r) p (.link p l)) := by
-  intro c s ha hg hcache
+  intro c s k0 ha hg hk hcache
   obtain ⟨r1, s1, h1, hk1, hc1, hr1⟩ :=
     access_spec (.fs .readlink (.link p l)) (fun w st => tblReadlink w st (.link p l)) c s ha
   unfold readlinkM accReadlink tryCatch
   simp only [bind_eq, pure_eq, M.bind, M.pure, h1]
-  have hgone := tblReadlink_gone (w := c.w) (st := c.ws s.k) (l := l) (hg.1 s.k)
+  have hgone := tblReadlink_gone (w := c.w) (st := c.ws s.k) (l := l) (hg.1 s.k hk)
   cases r1 with
   | ok t => rw [hgone] at hr1; cases hr1.1
   | error e =>
     simp only
     rcases hr1 with ⟨_, _, hd⟩ | ⟨en, ht, he, _⟩
-    · exact absurd (hg.2 s.k) hd
+    · exact absurd (hg.2 s.k hk) hd
     · rw [hgone] at ht
       injection ht with ht
       subst ht; subst he
       have : catches (goodCfg r).readlinkCatch Errno.ENOENT.toExc = true := by rfl
       simp only [this, if_true]
-      obtain ⟨s2, h2, hc2⟩ := pathLexists_gone p c s1 ha hg
+      obtain ⟨s2, h2, hc2, hk2⟩ := pathLexists_gone p c s1 k0 ha hg (by omega)
       simp only [M.bind, h2, Bool.false_eq_true, ↓reduceIte, throw]
-      exact ⟨_, s2, rfl, Or.inl rfl, by rw [hc2, hc1]⟩
+      exact ⟨_, s2, rfl, Or.inl rfl, by rw [hc2, hc1], by omega⟩
 
 theorem exe_gone : GoneNSP p (Plat.exe (goodCfg r) p) := by
   unfold Plat.exe; exact W_gone r _ p (by rfl) (readlinkM_fails r p .exe)
@@ -310,14 +318,14 @@ theorem cwd_gone : GoneNSP p (Plat.cwd (goodCfg r) p) := by
 theorem tryCatch_fallback {α : Type} {m m' : M α} {h : PyExc → Option (M α)}
     (hm : GoneFails p m) (hh : h .fnf = some m' ∧ h .ple = some m') (hm' : GoneNSP p m') :
     GoneNSP p (tryCatch m h) := by
-  intro c s ha hg hc
-  obtain ⟨e, s1, hr, he, hc1⟩ := hm c s ha hg hc
+  intro c s k0 ha hg hk hc
+  obtain ⟨e, s1, hr, he, hc1, hk1⟩ := hm c s k0 ha hg hk hc
   unfold tryCatch
   rw [hr]
   have hhe : h e = some m' := by rcases he with he | he <;> subst he <;> simp [hh.1, hh.2]
   simp only [hhe]
-  obtain ⟨s2, hr2, hc2⟩ := hm' c s1 ha hg (by rw [hc1]; exact hc)
-  exact ⟨s2, hr2, by rw [hc2, hc1]⟩
+  obtain ⟨s2, hr2, hc2, hk2⟩ := hm' c s1 k0 ha hg (by omega) (by rw [hc1]; exact hc)
+  exact ⟨s2, hr2, by rw [hc2, hc1], by omega⟩
 
 theorem memoryFullInfo_gone : GoneNSP p (Plat.memoryFullInfo (goodCfg r) p) := by
   unfold Plat.memoryFullInfo
@@ -340,53 +348,56 @@ theorem rlimit_gone (hp : p ≠ 0) : GoneNSP p (Plat.rlimit (goodCfg r) p) := by
   refine W_gone r _ p (by rfl) ?_
   have hp0 : (p == 0) = false := by simp [hp]
   simp only [hp0, Bool.false_eq_true, ↓reduceIte]
-  intro c s ha hg hc
-  obtain ⟨e, s1, hr, he, hc1⟩ := native_fails p .prlimit c s ha hg hc
+  intro c s k0 ha hg hk hc
+  obtain ⟨e, s1, hr, he, hc1, hk1⟩ := native_fails p .prlimit c s k0 ha hg hk hc
   unfold tryCatch
   rw [hr]
   rcases he with he | he <;> subst he
   · have : catches ["OSError"] PyExc.fnf = true := by rfl
     simp only [this, ↓reduceIte]
-    exact ⟨_, s1, rfl, Or.inl rfl, hc1⟩
+    exact ⟨_, s1, rfl, Or.inl rfl, hc1, hk1⟩
   · have : catches ["OSError"] PyExc.ple = true := by rfl
     simp only [this, ↓reduceIte]
-    exact ⟨_, s1, rfl, Or.inr rfl, hc1⟩
+    exact ⟨_, s1, rfl, Or.inr rfl, hc1, hk1⟩
 
 /-! ### front end -/
 
 theorem fresh_nsp {α : Type} {m : M α} (h : GoneNSP p m) : GoneNSP p (fresh m) := by
-  intro c s ha hg hc
-  obtain ⟨s1, hr, _⟩ := h c { s with cache := {} } ha hg rfl
+  intro c s k0 ha hg hk hc
+  obtain ⟨s1, hr, _, hk1⟩ := h c { s with cache := {} } k0 ha hg hk rfl
   unfold fresh
   rw [hr]
-  exact ⟨_, rfl, rfl⟩
+  exact ⟨_, rfl, rfl, hk1⟩
 
 /-- returns normally, cache untouched -/
 def GoneRet {α : Type} (p : Nat) (m : M α) : Prop :=
-  ∀ c s, Adm c → PGone c p → s.cache.active = false → ∃ a s', m c s = (.ok a, s') ∧ s'.cache = s.cache
+  ∀ c s k0, Adm c → PGone c p k0 → k0 ≤ s.k → s.cache.active = false →
+    ∃ a s', m c s = (.ok a, s') ∧ s'.cache = s.cache ∧ s.k ≤ s'.k
 
 theorem bind_ret_nsp {α β : Type} {m : M α} {f : α → M β} (hm : GoneRet p m) (hf : ∀ a, GoneNSP p (f a)) :
     GoneNSP p (m >>= f) := by
-  intro c s ha hg hc
-  obtain ⟨a, s1, hr, hc1⟩ := hm c s ha hg hc
-  obtain ⟨s2, hr2, hc2⟩ := hf a c s1 ha hg (by rw [hc1]; exact hc)
-  exact ⟨s2, by simp only [bind_eq, M.bind, hr, hr2], by rw [hc2, hc1]⟩
+  intro c s k0 ha hg hk hc
+  obtain ⟨a, s1, hr, hc1, hk1⟩ := hm c s k0 ha hg hk hc
+  obtain ⟨s2, hr2, hc2, hk2⟩ := hf a c s1 k0 ha hg (by omega) (by rw [hc1]; exact hc)
+  exact ⟨s2, by simp only [bind_eq, M.bind, hr, hr2], by rw [hc2, hc1], by omega⟩
 
 theorem mkProcess_gone : GoneNSP p (Fe.mkProcess (goodCfg r) p) := by
-  intro c s ha hg hc
-  obtain ⟨s1, hr, hc1⟩ := bind_nsp (fun ct => (pure ⟨p, some ct⟩ : M Obj)) (fresh_nsp p (createTime_gone r p)) c s ha hg hc
+  intro c s k0 ha hg hk hc
+  obtain ⟨s1, hr, hc1, hk1⟩ := bind_nsp (fun ct => (pure ⟨p, some ct⟩ : M Obj)) (fresh_nsp p (createTime_gone r p)) c s k0 ha hg hk hc
   unfold Fe.mkProcess tryCatch
   rw [hr]
   have : Fe.clauseOf (goodCfg r).initClauses (.nsp p) = some "raise NoSuchProcess" := by
     simp [Fe.clauseOf, goodCfg, catches, PyExc.bases]
   simp only [this, throw]
-  exact ⟨s1, rfl, hc1⟩
+  exact ⟨s1, rfl, hc1, hk1⟩
 
-/-- is_running() on a gone process: False (and `_pid_reused` stays False) -/
-theorem isRunning_gone (o : Obj) : GoneRet o.pid (Fe.isRunning (goodCfg r) o) := by
-  intro c s ha hg hc
-  obtain ⟨s1, hr, hc1⟩ := bind_nsp (fun o' => (pure (some (some o')) : M (Option (Option Obj))))
-    (mkProcess_gone r o.pid) c s ha hg hc
+/-- is_running() on a gone process: False, and `_pid_reused` stays False -/
+theorem isRunning_gone (o : Obj) :
+    ∀ c s k0, Adm c → PGone c o.pid k0 → k0 ≤ s.k → s.cache.active = false →
+      ∃ s', Fe.isRunning (goodCfg r) o c s = (.ok (false, false), s') ∧ s'.cache = s.cache ∧ s.k ≤ s'.k := by
+  intro c s k0 ha hg hk hc
+  obtain ⟨s1, hr, hc1, hk1⟩ := bind_nsp (fun o' => (pure (some (some o')) : M (Option (Option Obj))))
+    (mkProcess_gone r o.pid) c s k0 ha hg hk hc
   unfold Fe.isRunning
   simp only [bind_eq, M.bind, tryCatch]
   simp only [bind_eq, M.bind] at hr
@@ -394,34 +405,18 @@ theorem isRunning_gone (o : Obj) : GoneRet o.pid (Fe.isRunning (goodCfg r) o) :=
   have : Fe.clauseOf (goodCfg r).runningClauses (.nsp o.pid) = some "return False" := by
     simp [Fe.clauseOf, goodCfg, catches, PyExc.bases]
   simp only [this, pure_eq, M.pure]
-  exact ⟨_, s1, rfl, hc1⟩
+  exact ⟨s1, rfl, hc1, hk1⟩
 
 /-- `_raise_if_pid_reused` on a gone process: is_running() answers False and sets `_gone`, and
     the `_gone` test raises NoSuchProcess(pid) -/
 theorem raiseIfPidReused_gone (o : Obj) : GoneNSP o.pid (Fe.raiseIfPidReused (goodCfg r) o) := by
-  intro c s ha hg hc
-  obtain ⟨a, s1, hr, hc1⟩ := isRunning_gone r o c s ha hg hc
+  intro c s k0 ha hg hk hc
+  obtain ⟨s1, hr, hc1, hk1⟩ := isRunning_gone r o c s k0 ha hg hk hc
   unfold Fe.raiseIfPidReused
   simp only [bind_eq, M.bind, hr]
-  obtain ⟨run, reu⟩ := a
-  -- the pair returned for a gone process is (false, false)
-  have hval : (run, reu) = (false, false) := by
-    obtain ⟨s0, hr0, _⟩ := bind_nsp (fun o' => (pure (some (some o')) : M (Option (Option Obj))))
-      (mkProcess_gone r o.pid) c s ha hg hc
-    unfold Fe.isRunning at hr
-    simp only [bind_eq, M.bind, tryCatch] at hr hr0
-    rw [hr0] at hr
-    have : Fe.clauseOf (goodCfg r).runningClauses (.nsp o.pid) = some "return False" := by
-      simp [Fe.clauseOf, goodCfg, catches, PyExc.bases]
-    simp only [this, pure_eq, M.pure] at hr
-    injection hr with h1 _
-    injection h1 with h1
-    exact h1.symm
-  injection hval with h1 h2
-  subst h1; subst h2
   have hgd : (goodCfg r).goneGuard = true := rfl
   simp only [hgd, Bool.not_false, Bool.and_false, Bool.and_self, Bool.false_eq_true, ↓reduceIte, throw]
-  exact ⟨s1, rfl, hc1⟩
+  exact ⟨s1, rfl, hc1, hk1⟩
 
 theorem fe_ppid_gone (o : Obj) : GoneNSP o.pid (Fe.ppid (goodCfg r) o) := by
   unfold Fe.ppid
